@@ -30,6 +30,9 @@ func main() {
 		Gen: func(r *hx.Rng, tier string, i int) []hx.Zs {
 			switch i % 4 {
 			case 3:
+				if i%16 == 7 {
+					return dispatch.ManyPendingHistory(r, tier)
+				}
 				return dispatch.Random(r, tier, 25)
 			case 1:
 				if i%8 == 1 {
